@@ -1,4 +1,6 @@
 import itertools
+import re
+import struct
 
 from ..codecgen import codec_cases
 from ..gen import hexs
@@ -48,6 +50,99 @@ COLOR_LINES = [
 
 def valpool(kind):
     return {"i": INTS, "f": FLOATS, "s": STRINGS, "bm": BOOKMARKS}[kind]
+
+
+# ---- an independent reference for [General] lines (written from the format rules, not from the model) ----------------
+_INT_RE = re.compile(r"[+-]?[0-9]+\Z")
+_FLT_RE = re.compile(r"[+-]?(?:[0-9]+\.?[0-9]*(?:[eE][+-]?[0-9]+)?|\.[0-9]+(?:[eE][+-]?[0-9]+)?|inf|infinity|nan)\Z", re.I)
+_WS = " \t\n\x0b\x0c\r\x85\xa0\u1680\u2000\u2001\u2002\u2003\u2004\u2005\u2006\u2007\u2008\u2009\u200a\u2028\u2029\u202f\u205f\u3000"
+_I32MAX = 2147483647
+
+
+def _ref_i32(v):
+    v = v.strip(_WS)
+    if not _INT_RE.match(v):
+        return None
+    n = int(v)
+    return n if -_I32MAX <= n <= _I32MAX else None
+
+
+def _ref_f32_bits(v):
+    v = v.strip(_WS)
+    if not _FLT_RE.match(v):
+        return None
+    x = float(v)
+    if x != x:
+        return None
+    try:
+        y = struct.unpack(">f", struct.pack(">f", x))[0]
+    except OverflowError:
+        return None
+    # the limit is compared in f32: (2^31 - 1) as f32 = 2^31
+    if y < -2147483648.0 or y > 2147483648.0:
+        return None
+    # double rounding (decimal -> f64 -> f32) differs from Rust's direct decimal -> f32 only for long decimals: not judged
+    if len(v.lstrip("+-").replace(".", "").split("e")[0].split("E")[0]) > 9:
+        return "unjudged"
+    return format(struct.unpack(">I", struct.pack(">f", x))[0], "x")
+
+
+def general_reference(lines):
+    """state after the lines, and per line whether it is accepted; None where the reference does not judge"""
+    st = {"audio": "-", "lead": "0", "preview": "-1", "bank": "0", "vol": "100", "stack": "3f333333", "mode": "0",
+          "flags": ["0"] * 5, "countdown": "1", "offset": "0"}
+    res = []
+    flags = ["LetterboxInBreaks", "SpecialStyle", "WidescreenStoryboard", "EpilepsyWarning", "SamplesMatchPlaybackRate"]
+    banks = {"0": "0", "1": "1", "2": "2", "3": "3", "None": "0", "Normal": "1", "Soft": "2", "Drum": "3"}
+    cds = {"0": "0", "1": "1", "2": "2", "3": "3", "None": "0", "Normal": "1", "Half speed": "2", "Double speed": "3"}
+    for l in lines:
+        i = l.find("//")
+        if i >= 0:
+            l = l[:i]
+        k, _, v = l.partition(":")
+        k, v = k.strip(_WS), v.strip(_WS)
+        ok = True
+        if k == "AudioFilename":
+            st["audio"] = v.replace("\\", "/").encode().hex() or "-"
+        elif k in ("AudioLeadIn", "PreviewTime", "SampleVolume", "CountdownOffset") or k in flags:
+            n = _ref_i32(v)
+            if n is None:
+                ok = False
+            elif k == "AudioLeadIn":
+                st["lead"] = format(struct.unpack(">Q", struct.pack(">d", float(n)))[0], "x")
+            elif k == "PreviewTime":
+                st["preview"] = str(n)
+            elif k == "SampleVolume":
+                st["vol"] = str(n)
+            elif k == "CountdownOffset":
+                st["offset"] = str(n)
+            else:
+                st["flags"][flags.index(k)] = "1" if n == 1 else "0"
+        elif k == "SampleSet":
+            if v in banks:
+                st["bank"] = banks[v]
+            else:
+                ok = False
+        elif k == "Countdown":
+            if v in cds:
+                st["countdown"] = cds[v]
+            else:
+                ok = False
+        elif k == "Mode":
+            if v in ("0", "1", "2", "3"):
+                st["mode"] = v
+            else:
+                ok = False
+        elif k == "StackLeniency":
+            b = _ref_f32_bits(v)
+            if b == "unjudged":
+                return None
+            if b is None:
+                ok = False
+            else:
+                st["stack"] = b
+        res.append(ok)
+    return res, st
 
 
 class C11(Property):
@@ -158,6 +253,19 @@ class C11(Property):
         for a in COLOR_LINES:
             for b in COLOR_LINES:
                 add("colors", [a, b], "pair")
+        # [General]: the key x value matrix, and for every key a valid non-default record followed by every value of the pool
+        # (an invalid value must leave the field as the first record set it; a valid one replaces it)
+        from .c12 import GEN_KEYS, GEN_VALUES
+        first = {"AudioFilename": "a.mp3", "AudioLeadIn": "250", "PreviewTime": "1234", "SampleSet": "Drum", "SampleVolume": "35", "StackLeniency": "0.25",
+                 "Mode": "3", "LetterboxInBreaks": "1", "SpecialStyle": "1", "WidescreenStoryboard": "1", "EpilepsyWarning": "1",
+                 "SamplesMatchPlaybackRate": "1", "Countdown": "2", "CountdownOffset": "7"}
+        for k in GEN_KEYS:
+            for v in GEN_VALUES:
+                cases.append(Case("gen " + hexs(f"{k}: {v}".encode()), tags=("general-matrix",)))
+                cases.append(Case("gen " + hexs(f"{k}: {first[k]}".encode()) + " " + hexs(f"{k}:{v}".encode()), tags=("general-then",)))
+            for v2 in ("2", "1", "Soft", "0.9"):
+                cases.append(Case("gen " + hexs(f"{k}: {first[k]}".encode()) + " " + hexs(f"{k}: bad".encode()) + " " + hexs(f"{k}: {v2}".encode()),
+                                  tags=("general-then",)))
         n = 4000 if tier == "quick" else 120000
         for _ in range(n):
             sec = rng.choice(["editor", "metadata", "difficulty", "events", "colors"])
@@ -178,7 +286,27 @@ class C11(Property):
         cases += codec_cases(rng, 1500 if tier == "quick" else 40000)
         return cases
 
+    def py_oracle(self, case, obs):
+        if not case.line.startswith("gen ") or not obs.startswith("r="):
+            return None
+        lines = [bytes.fromhex(t).decode("utf-8", "replace") for t in case.line.split()[1:]]
+        ref = general_reference(lines)
+        if ref is None:
+            return "SKIP long-decimal"
+        res, st = ref
+        f = dict(x.split("=", 1) for x in obs.split(" "))
+        got = [r == "ok" for r in f["r"].split(",")]
+        if got != res:
+            return f"FAIL [General] lines accepted {got}, the format rules say {res}: {lines}"
+        for k, want in (("audio", st["audio"]), ("lead", st["lead"]), ("preview", st["preview"]), ("bank", st["bank"]), ("vol", st["vol"]),
+                        ("stack", st["stack"]), ("mode", st["mode"]), ("flags", "".join(st["flags"])), ("countdown", st["countdown"]), ("offset", st["offset"])):
+            if f.get(k) != want:
+                return f"FAIL [General] {k} is {f.get(k)}, the format rules give {want}: {lines}"
+        return "OK"
+
     def is_nontrivial(self, case, impl_out):
+        if case.line.startswith("gen "):
+            return True
         return impl_out.startswith("ok=") and "1" in impl_out.split(" ")[0]
 
 
